@@ -203,11 +203,23 @@ def in_copy(case, step):
 def replay_one(job):
     case, variant = job
     src, templates, data, kw, eglob = concretize(case, variant)
-    env = harness.make_env(templates=templates, globals=eglob)
+    via_loader = variant % 2 == 1 and not kw.get("matter")
+    if via_loader:
+        # the main template comes from a CACHING loader and was requested before with OTHER template globals: the template globals of
+        # THIS request are the ones in force (render arguments > front matter > template globals > environment globals)
+        from liquid import CachingDictLoader
+        names = sorted(case["prog"][0]["reads"])
+        env = harness.make_env(loader=CachingDictLoader(dict(templates, main_=src)), globals=eglob)
+        env.get_template("main_", globals={n: "stale:" + n for n in names})
+    else:
+        env = harness.make_env(templates=templates, globals=eglob)
     res = []
     for how in ("sync", "async"):
         try:
-            t = env.from_string(src, **{k: v for k, v in kw.items() if v})
+            if via_loader:
+                t = env.get_template("main_", globals=kw.get("globals"))
+            else:
+                t = env.from_string(src, **{k: v for k, v in kw.items() if v})
         except Exception as e:
             res.append((how, (0, "parse failed: " + repr(e)[:200])))
             continue
@@ -249,7 +261,7 @@ def scope_family(ck, tier, only_copy=False):
         cases += r.emitted
     if only_copy:
         cases = [c for c in cases if any(r["op"] in COPY_OPS for r in c["prog"])]
-    cap = 24000 if tier == "quick" else 600000
+    cap = 15000 if tier == "quick" else 600000
     if len(cases) > cap:
         ck.cov["sampled_from"] = len(cases)
         cases = rnd.sample(cases, cap)
